@@ -248,9 +248,6 @@ class TUFacts:
                 o = json.loads(line)
                 r = o["rec"]
                 if r == "fn":
-                    if o.get("body") is not None:
-                        from . import normal
-                        normal.normalise(o["body"])
                     fn = Fn(o, self, tu)
                     self.fns.append(fn)
                     self.by_id[o["id"]] = fn
@@ -267,6 +264,11 @@ class TUFacts:
                     self.summary = o
         if not self.summary:
             raise AnalysisIncomplete("facts file %s is truncated" % path)
+        from . import normal
+        is_bool = lambda tid: self.TC(tid).replace("const ", "").strip() == "bool"
+        for fn in self.fns:
+            if fn.o.get("body") is not None:
+                normal.normalise(fn.o["body"], is_bool)
 
     def T(self, tid):
         if not tid:
